@@ -245,7 +245,7 @@ func erase[T any](c *codec[T]) *erased {
 var (
 	shapes     []*erased
 	shapeIndex = map[string]*erased{}
-	kcTrim     = 4 // how many child alphabet values a combinator uses
+	kcTrim     = 5 // how many child alphabet values a combinator uses (thorough: 6)
 )
 
 func emit(e *erased) {
